@@ -1,5 +1,8 @@
 import Abyss.Props.C15
 import Abyss.Props.GenCorollaries
+import Abyss.Props.GenCorollaries3
+#print axioms Abyss.C15_generated_session
+#print axioms Abyss.C15_generated_session_after
 #print axioms Abyss.C15_generated_readonly
 #print axioms Abyss.C04_generated_iter
 #print axioms Abyss.C15_store_frame
